@@ -12,36 +12,36 @@ From VV Require Import Evo.EvoDefs Evo.EvoProofs Evo.EvoMain Evo.EvoProgress Evo
 Import ListNotations.
 Local Open Scope Z_scope.
 
-Theorem C06_layer_bound : forall F (flt : F -> F -> bool),
-  forall e (s : state F), env_ok e -> @reachable F flt e s ->
+Theorem C06_layer_bound : forall F (flt : F -> F -> bool) (ops : stat_ops),
+  forall e (s : state F), env_ok e -> @reachable F flt ops e s ->
   forall l ly, nth_error (pop s) l = Some ly -> (1 <= length (members ly) <= allowed ly)%nat.
 Proof. exact main_layer_bound. Qed.
 Print Assumptions C06_layer_bound.
 
-Theorem C06_std_de_size_constant : forall F (flt : F -> F -> bool),
-  forall e (s : state F), env_ok e -> is_alps e = false -> @reachable F flt e s ->
+Theorem C06_std_de_size_constant : forall F (flt : F -> F -> bool) (ops : stat_ops),
+  forall e (s : state F), env_ok e -> is_alps e = false -> @reachable F flt ops e s ->
   length (pop s) = 1%nat /\ pop_size (pop s) = e_individuals e.
 Proof. exact main_std_de_size_constant. Qed.
 Print Assumptions C06_std_de_size_constant.
 
-Theorem C06_last_imp_le_gen : forall F (flt : F -> F -> bool),
-  forall e (s : state F), env_ok e -> @reachable F flt e s -> last_imp (sm s) <= gen (sm s).
+Theorem C06_last_imp_le_gen : forall F (flt : F -> F -> bool) (ops : stat_ops),
+  forall e (s : state F), env_ok e -> @reachable F flt ops e s -> last_imp (sm s) <= gen (sm s).
 Proof. exact main_last_imp_le_gen. Qed.
 Print Assumptions C06_last_imp_le_gen.
 
-Theorem C06_best_is_score_of_best : forall F (flt : F -> F -> bool),
-  forall e (s : state F), env_ok e -> @reachable F flt e s -> best_fit (sm s) = fit (best_sol (sm s)).
+Theorem C06_best_is_score_of_best : forall F (flt : F -> F -> bool) (ops : stat_ops),
+  forall e (s : state F), env_ok e -> @reachable F flt ops e s -> best_fit (sm s) = fit (best_sol (sm s)).
 Proof. exact main_best_is_score_of_best. Qed.
 Print Assumptions C06_best_is_score_of_best.
 
-Theorem C06_best_monotone : forall F (flt : F -> F -> bool), strict_weak_order flt ->
-  forall e evs (s s' : state F), @no_shake F evs = true -> run flt e s evs = Some s' ->
+Theorem C06_best_monotone : forall F (flt : F -> F -> bool) (ops : stat_ops), strict_weak_order flt ->
+  forall e evs (s s' : state F), @no_shake F evs = true -> run flt ops e s evs = Some s' ->
   flt (best_fit (sm s')) (best_fit (sm s)) = false.
 Proof. exact main_best_monotone. Qed.
 Print Assumptions C06_best_monotone.
 
-Theorem C06_invariants_boolean_form : forall F (flt : F -> F -> bool), strict_weak_order flt ->
-  forall e (s : state F), env_ok e -> @reachable F flt e s -> inv_b flt e s = true.
+Theorem C06_invariants_boolean_form : forall F (flt : F -> F -> bool) (ops : stat_ops), strict_weak_order flt ->
+  forall e (s : state F), env_ok e -> @reachable F flt ops e s -> inv_b flt e s = true.
 Proof. exact main_inv_b. Qed.
 Print Assumptions C06_invariants_boolean_form.
 
@@ -85,9 +85,9 @@ Print Assumptions C06_members_exist.
 (* with elitism the std and DE strategies never lower the highest fitness
    present: every member is matched, any number of events later, by a member
    that is not worse *)
-Theorem C06_elitism_keeps_max : forall F (flt : F -> F -> bool), strict_weak_order flt ->
+Theorem C06_elitism_keeps_max : forall F (flt : F -> F -> bool) (ops : stat_ops), strict_weak_order flt ->
   forall e evs (s s' : state F), is_alps e = false -> e_elitism e = true ->
-  @no_shake F evs = true -> run flt e s evs = Some s' ->
+  @no_shake F evs = true -> run flt ops e s evs = Some s' ->
   forall x, In x (all_members (pop s)) -> exists y, In y (all_members (pop s')) /\ flt (fit y) (fit x) = false.
 Proof. exact main_elitism_keeps_max. Qed.
 Print Assumptions C06_elitism_keeps_max.
@@ -114,29 +114,29 @@ Print Assumptions C06_progress_alps_select.
 (* a whole iteration of the inner loop under std_es, from ANY state satisfying
    the invariant, for ALL valid draws and every offspring that honours the
    contract of recombination::base::run *)
-Theorem C06_progress_step_std : forall F (flt : F -> F -> bool) e (s : state F) ti rs k o,
+Theorem C06_progress_step_std : forall F (flt : F -> F -> bool) (ops : stat_ops) e (s : state F) ti rs k o,
   e_strat e = Std -> (1 <= e_tournament e)%nat -> Inv F e s ->
   (ti < e_individuals e)%nat -> length rs = e_tournament e ->
   forallb (ring_draw_ok (e_mate_zone e) (Z.of_nat (e_individuals e))) rs = true ->
   (forall r1 x1 x2 parents, tournament_select flt e (pop s) (O, ti) rs = Some parents ->
      hd_error parents = Some r1 -> get (pop s) r1 = Some x1 -> get (pop s) (second parents r1) = Some x2 ->
      base_offspring_ok F e x1 x2 k o) ->
-  exists s', step_ok flt e s (EStep (SelTournament (O, ti) rs) (RecBase k) o []) = Some s'.
+  exists s', step_ok flt ops e s (EStep (SelTournament (O, ti) rs) (RecBase k) o []) = Some s'.
 Proof. exact step_progress_std. Qed.
 Print Assumptions C06_progress_step_std.
 
-Theorem C06_progress_step_de : forall F (flt : F -> F -> bool) e (s : state F) (cs : list coord) va vb,
+Theorem C06_progress_step_de : forall F (flt : F -> F -> bool) (ops : stat_ops) e (s : state F) (cs : list coord) va vb,
   e_strat e = De -> (1 <= e_tournament e)%nat -> Inv F e s ->
   length cs = e_tournament e -> (forall c, In c cs -> fst c = O /\ (snd c < e_individuals e)%nat) ->
   ring_draw_ok (e_mate_zone e) (Z.of_nat (e_individuals e)) va = true ->
   ring_draw_ok (e_mate_zone e) (Z.of_nat (e_individuals e)) vb = true ->
   exists a_age, forall o : ind F, age o = a_age ->
-    exists s', step_ok flt e s (EStep (SelRandom cs) (RecDe va vb) o []) = Some s'.
+    exists s', step_ok flt ops e s (EStep (SelRandom cs) (RecDe va vb) o []) = Some s'.
 Proof. exact step_progress_de. Qed.
 Print Assumptions C06_progress_step_de.
 
-Theorem C06_progress_aftergen_std_de : forall F (flt : F -> F -> bool) e (s : state F), is_alps e = false ->
-  exists s', step_ok flt e s (EAfterGen (mkAg [] [] (AgNone F))) = Some s'.
+Theorem C06_progress_aftergen_std_de : forall F (flt : F -> F -> bool) (ops : stat_ops) e (s : state F) a, is_alps e = false ->
+  exists s', step_ok flt ops e s (EAfterGen a) = Some s'.
 Proof. exact aftergen_progress_std_de. Qed.
 Print Assumptions C06_progress_aftergen_std_de.
 
@@ -228,8 +228,14 @@ Example env_ok_std : env_ok e_std. Proof. split; simpl; auto with arith. Qed.
 (* a reachable state after a step that replaces a member and improves the best,
    and a generation end *)
 Definition ev1 : event Z := EStep (SelTournament (0%nat, 3%nat) [0; 1; 2]) (RecBase Cross) (mkInd 9 0 8) [].
-Definition ev2 : event Z := EAfterGen (mkAg [] [] (AgNone Z)).
-Example std_trace_accepted : exists s0 s, init_state e_std xs = Some s0 /\ run lt e_std s0 [ev1; ev2] = Some s /\
+(* statistics as integers in one-element lists *)
+Definition ops0 : stat_ops :=
+  mkOps (fun a b => match a, b with [x], [y] => x =? y | _, _ => false end)
+        (fun a => match a with [x] => x =? 0 | _ => false end)
+        (fun a z => match a with [x] => z <? x | _ => false end).
+Definition no_stats : stats := mkStats [] [] [] [].
+Definition ev2 : event Z := EAfterGen (mkAg no_stats [] []).
+Example std_trace_accepted : exists s0 s, init_state e_std xs = Some s0 /\ run lt ops0 e_std s0 [ev1; ev2] = Some s /\
   best_fit (sm s) = 8 /\ gen (sm s) = 1 /\ map (@uid Z) (all_members (pop s)) = [1; 2; 3; 9].
 Proof. eexists. eexists. split; [reflexivity|]. vm_compute. repeat split. Qed.
 
@@ -239,20 +245,32 @@ Example tournament_nonvacuous :
 Proof. vm_compute. reflexivity. Qed.
 
 (* ALPS: two generations, the second adds a layer (gen = 1, age_gap = 1) *)
-Definition a_ev1 : event Z := EAfterGen (mkAg [] [] (AgNone Z)).
-Definition a_ev2 : event Z := EAfterGen (mkAg [] [] (AgAdd [mkInd 11 0 2; mkInd 12 0 3; mkInd 13 0 4; mkInd 14 0 5])).
+Definition a_ev1 : event Z := EAfterGen (mkAg no_stats [] []).
+Definition a_ev2 : event Z := EAfterGen (mkAg no_stats [] [mkInd 11 0 2; mkInd 12 0 3; mkInd 13 0 4; mkInd 14 0 5]).
 Definition a_ev3 : event Z :=
   EStep (SelAlps 1 (true, 0%nat) (true, 1%nat) [(false, 2%nat); (true, 3%nat)]) (RecBase Cross) (mkInd 20 2 9) [0; 1; 2]%nat.
-Example alps_trace_accepted : exists s0 s, init_state e_alps xs = Some s0 /\ run lt e_alps s0 [a_ev1; a_ev2; a_ev3] = Some s /\
+Example alps_trace_accepted : exists s0 s, init_state e_alps xs = Some s0 /\ run lt ops0 e_alps s0 [a_ev1; a_ev2; a_ev3] = Some s /\
   length (pop s) = 2%nat /\ best_fit (sm s) = 9 /\ inv_b lt e_alps s = true.
+Proof. eexists. eexists. split; [reflexivity|]. vm_compute. repeat split. Qed.
+
+(* statistics drive the end of the generation: equal layer means remove layer 1,
+   then (generation 2, age gap 1, 1 < 3 layers) a fresh layer is added; a small
+   standard deviation halves the allowed size of layer 1 in the next one *)
+Definition a_ev4 : event Z :=
+  EAfterGen (mkAg (mkStats [[5]; [5]] [[3]; [3]] [[1]; [1]] [0]) [] [mkInd 21 0 2; mkInd 22 0 3; mkInd 23 0 4; mkInd 24 0 5]).
+Definition a_ev5 : event Z :=
+  EAfterGen (mkAg (mkStats [[5]; [9]] [[3]; [0]] [[1]; [1]] [0]) [] [mkInd 31 0 2; mkInd 32 0 3; mkInd 33 0 4; mkInd 34 0 5]).
+Example alps_statistics_decide : exists s0 s, init_state e_alps xs = Some s0 /\
+  run lt ops0 e_alps s0 [a_ev1; a_ev2; a_ev3; a_ev4; a_ev5] = Some s /\
+  map (fun ly => (length (members ly), allowed ly)) (pop s) = [(4, 4); (4, 4); (2, 2)]%nat.
 Proof. eexists. eexists. split; [reflexivity|]. vm_compute. repeat split. Qed.
 
 (* the model does reject: an offspring of the wrong age, a draw outside the ring width *)
 Example rejects_wrong_age : forall s0, init_state e_std xs = Some s0 ->
-  step_ok lt e_std s0 (EStep (SelTournament (0%nat, 3%nat) [0; 1; 2]) (RecBase Cross) (mkInd 9 5 8) []) = None.
+  step_ok lt ops0 e_std s0 (EStep (SelTournament (0%nat, 3%nat) [0; 1; 2]) (RecBase Cross) (mkInd 9 5 8) []) = None.
 Proof. intros s0 H. inversion H; subst. vm_compute. reflexivity. Qed.
 Example rejects_bad_draw : forall s0, init_state e_std xs = Some s0 ->
-  step_ok lt e_std s0 (EStep (SelTournament (0%nat, 3%nat) [0; 1; 3]) (RecBase Cross) (mkInd 9 0 8) []) = None.
+  step_ok lt ops0 e_std s0 (EStep (SelTournament (0%nat, 3%nat) [0; 1; 3]) (RecBase Cross) (mkInd 9 0 8) []) = None.
 Proof. intros s0 H. inversion H; subst. vm_compute. reflexivity. Qed.
 
 (* tuning: the blank environment is an admissible user input *)
